@@ -154,7 +154,7 @@ func cmdCheck(args []string) int {
 			c := p.contracts[k]
 			fn := p.findFunc(k)
 			if fn == nil {
-				allObls = append(allObls, &Obligation{Unit: k, Kind: "bind", Goal: False, Src: "contract does not bind to a function: " + k})
+				allObls = append(allObls, &Obligation{Unit: moduleShort(ld.Module) + ":" + k, Kind: "bind", Goal: False, Src: "contract does not bind to a function: " + k})
 				continue
 			}
 			if c.Inline || c.Trusted {
@@ -167,7 +167,7 @@ func cmdCheck(args []string) int {
 				continue
 			}
 			functions = append(functions, ld.Module+":"+k)
-			u := &Unit{Fn: fn, Contract: c, Name: k}
+			u := &Unit{Fn: fn, Contract: c, Name: moduleShort(ld.Module) + ":" + k}
 			ur := p.verifyUnit(u)
 			unitResults = append(unitResults, ur)
 			for _, e := range ur.Errs {
@@ -240,6 +240,7 @@ func cmdCheck(args []string) int {
 		if *only == "" {
 			for _, o := range p.lemmaObligations() {
 				o.prog = p
+				o.Unit = moduleShort(ld.Module) + ":" + o.Unit
 				allObls = append(allObls, o)
 			}
 		}
